@@ -24,8 +24,66 @@ class Ctx:
             raise Inconclusive("struct %s has no field %s in the source (renamed?)" % (struct, name))
         return fs.index(name)
 
-    def engine(self, **kw):
-        return Engine(self.idx, enums=self.enums, src_root=self.src, **kw)
+    def engine(self, auto=True, **kw):
+        e = Engine(self.idx, enums=self.enums, src_root=self.src, **kw)
+        if auto:
+            e.auto_inline = self.default_auto()
+        return e
+
+    # ---- default automatic inlining: "a repo function the checks do not know by name is looked into" ----
+    # A behaviour-preserving "extract helper" refactoring introduces a function whose name no obligation refers to; left
+    # uninterpreted it would hide the events the obligations look for (false alarm). Such callees are inlined when they
+    # resolve to exactly one body and a stand-alone exploration of that body succeeds with few paths.
+    AUTO_KEEP = re.compile(r"(SharedState::|::log$|Logger::|logger::|event_logger::|logger_manager::|telemetry::|misc_helpers::|helpers::|"
+                           r"::clone$|::fmt$|::to_string$|::drop$|::default$|::eq$|::ne$|::from$|::into$|::new$|::deserialize$|::serialize$)")
+
+    def default_auto(self):
+        if getattr(self, "_auto", None) is not None:
+            return self._auto
+        import callgraph
+        cg = callgraph.CallGraph(self.idx)
+        cg.set_src(self.src)
+        known = known_names()
+        # functions that existed when the obligations were written and that no obligation names stay uninterpreted as before
+        # (inlining them only multiplies paths); only functions that appeared since are looked into.
+        bf = os.path.join(os.path.dirname(os.path.abspath(__file__)), "baseline_fn_names.txt")
+        baseline = set(open(bf).read().split()) if os.path.exists(bf) else set()
+        ok = {}
+        ctx = self
+
+        def inlinable(path, stack):
+            if path in ok:
+                return ok[path]
+            if path in stack or len(stack) > 3:
+                return False
+            ok[path] = False
+            try:
+                e2 = Engine(ctx.idx, enums=ctx.enums, src_root=ctx.src, loop_bound=1, max_paths=24, timeout=20)
+                e2.auto_inline = lambda engine, callee, caller: pick(callee, caller, stack + [path])
+                ps = e2.explore(path)
+                good = 0 < len(ps) <= 12 and all(p.status in ("return", "panic") for p in ps)
+            except Exception:
+                good = False
+            ok[path] = good
+            return good
+
+        def pick(callee, caller, stack):
+            if Ctx.AUTO_KEEP.search(callee):
+                return None
+            seg = callgraph.last_seg(callee)
+            if seg in known or seg in baseline:
+                return None
+            c = cg.resolve(callee, caller)
+            if len(c) != 1:
+                return None
+            p = next(iter(c))
+            if "{closure" in p.split("::")[-1] or Ctx.AUTO_KEEP.search(p):
+                return None
+            return p if inlinable(p, stack) else None
+
+        self._auto = lambda engine, callee, caller: pick(callee, caller, [])
+        self.auto_decisions = ok
+        return self._auto
 
     def one(self, suffix):
         c = self.idx.find(suffix)
@@ -38,6 +96,21 @@ class Ctx:
         if len(c) != 1:
             raise Inconclusive("expected exactly one impl body %s::%s, found %d" % (type_name, method, len(c)))
         return c[0]
+
+
+_KNOWN = None
+
+
+def known_names():
+    """every identifier-like token in the check sources: the function names obligations can refer to"""
+    global _KNOWN
+    if _KNOWN is None:
+        _KNOWN = set()
+        d = os.path.dirname(os.path.abspath(__file__))
+        for f in os.listdir(d):
+            if f.endswith(".py") and (f.startswith("p_c") or f in ("handler_model.py", "e2e.py", "taint.py")):
+                _KNOWN |= set(re.findall(r"[A-Za-z_]\w{2,}", open(os.path.join(d, f)).read()))
+    return _KNOWN
 
 
 def scan_structs(src_dirs):
